@@ -8,7 +8,7 @@ from mc.common import Stats
 from mc.props import c13
 
 THREAD_SCENARIOS = ['seq', 'opt', 'bits', 'proto-pickle', 'selector-fresh', 'selector-shared', 'selector-two', 'marker', 'regex-kept', 'regex-nonkept', 'regex-nonkept-seq',
-                    'described', 'two-levels', 'positioned', 'seq-data', 'default-list', 'expr']
+                    'described', 'user-descriptor', 'two-levels', 'positioned', 'seq-data', 'default-list', 'expr']
 
 
 def body_unpack(mod, raw):
